@@ -1,4 +1,5 @@
 import LdarModel.Lemmas.Cost
+import LdarModel.Generated.CrewCost
 /-
 C10 — cost accounting: every cost item is charged exactly once, totals add up.
 
@@ -361,6 +362,24 @@ theorem C10 : C10_statement :=
   ⟨row_identity, per_site_once, per_day_once, upfront_once,
    fun p cost ev N hr => repair_once p cost ev N hr, no_methods_no_cost,
    fun ms es N hr => program_repairs_once ms es N hr⟩
+
+/-! ### table obligations (regenerated from /repo on every run: `Generated/CrewCost.lean`) -/
+
+/-- the cost model books every item from the parameters and the day's events alone; the code it models
+must not carry cost-relevant state from one construction / day / program to the next: the only
+class-level containers of the modelled modules are the two read-only dispatch tables of
+`ProgramOutputManager`, nothing mutates a shared container, nothing is cached, and the only copy /
+pickle hooks are the known ones -/
+theorem cost_no_cross_case_state :
+    Generated.CrewCost.classLevelContainers =
+      [("program_output_manager", "ProgramOutputManager", "PROGRAM_FUNCTIONS_MAPPING"),
+       ("program_output_manager", "ProgramOutputManager", "PROGRAM_VISUALIZATION_FUNCTIONS_MAP")] ∧
+    Generated.CrewCost.sharedContainerMutations = [] ∧ Generated.CrewCost.cachedFunctions = [] ∧
+    Generated.CrewCost.copyHooks =
+      [("daylight_calculator", "DaylightCalculatorAve", "__reduce__"),
+       ("repairable_emission", "RepairableEmission", "__reduce__"),
+       ("repairable_emission", "RepairableEmission", "__setstate__"),
+       ("weather_lookup", "WeatherLookup", "__reduce__")] := by decide
 
 /-! ### non-vacuity -/
 
